@@ -1226,6 +1226,11 @@ def _compare(ctx, reqs, pending, escalate=True):
                 ctx.disagree('L0', case, 'ok', ans, 'model refuses the read-back')
             elif got is not None and ans['ok'] != got:
                 ctx.disagree('L0', case, got, ans['ok'], 'read-back: model != implementation')
+        elif what == 'tpm':
+            if 'ok' not in ans:
+                ctx.disagree('L0', case, 'ok', ans, 'model refuses a tiled mask the constructor accepted')
+            elif ans['ok'] != item[2]:
+                ctx.disagree('L0', case, item[2], ans['ok'], 'total pixel matrix: model != implementation')
         elif what == 'build':
             impl = item[2]
             if 'ok' not in ans:
@@ -1641,6 +1646,15 @@ def run_tiled(ctx, c, reqs, pending):
                                         'pd': list(bytes(d2.PixelData)) if c['ts'] in NATIVE else None,
                                         'frames': {f'{-1 if s is None else s},{k}': px[i].astype(np.int64).reshape(-1).tolist()
                                                    for i, (s, k) in enumerate(keys)}}))
+        tpm_got = None
+        if c['mode'] == 'tpm':
+            try:        # L0: the matrix the model gathers from its tile frames (`assembleTPM`) vs get_total_pixel_matrix
+                tpm_got = np.asarray(seg.get_total_pixel_matrix(rescale_fractional=False)).astype(np.int64)
+            except Exception:  # noqa: BLE001
+                tpm_got = None
+            if tpm_got is not None and tpm_got.shape == (R, C, S):
+                reqs.append(('tpm', margs))
+                pending.append((dict(desc, request='total_pixel_matrix'), 'tpm', tpm_got.transpose(2, 0, 1).reshape(S, -1).tolist()))
     except Exception as e:  # noqa: BLE001
         ctx.fail(dict(desc, path='pydicom'), f'written file not decodable by pydicom: {type(e).__name__}: {e}'[:300],
                  site='written-file/tiled')
